@@ -139,6 +139,7 @@ CHECKS = {
                                      "atomic application of an unacknowledged one are sampled by the kill runs, not proved",
                                      "the scheduler + worker-pool pipeline kill (side-effect log across restarts) is not built"],
         "assumptions": REPO_ASSUME,
+        "extra_mon": {"C01": r"^(rev|cdp) ", "C12": r"^(rev|cdp) "},
         "claim": "PARTIAL: the recovery logic is proved and tied; durability is sampled by SIGKILL runs at every operation "
                  "boundary and at random instants (process kill only: no power-loss / fsync model).",
     },
